@@ -10,6 +10,18 @@ sys.path.insert(1, os.path.join(ROOT, ".deps"))
 
 CHECKS = {
     "C01": ("5/C01", "Hypothesis-generated convex vertex sets vs brute-force facets + exact tetrahedral moments (Fraction for lattice input); metamorphic vertex-order independence"),
+    "C02": ("5/C02", "generated closed meshes (polycubes incl. genus 1, extrusions, star meshes) vs signed-tetrahedron moments cross-checked with the voxel closed form"),
+    "C03": ("5/C03", "model-based operation sequences: exhaustive words of length <=2 (<=3 thorough) plus drawn histories; invariant after every step = equality with a freshly constructed shape"),
+    "C04": ("5/C04", "generated simple polygons in every orientation/plane/normal argument vs shoelace integrals in a harness frame (Fraction for integer polygons)"),
+    "C05": ("5/C05", "generated shapes x near-boundary/coordinate-aligned query points vs facet distances, solid-angle winding number and distance-to-core oracles; batch/single/permutation relations"),
+    "C06": ("5/C06", "generated polygons/circles/ellipses x near-boundary/aligned in-plane points vs crossing number and quadratic-form oracles"),
+    "C07": ("5/C07", "generated hulls, shuffled faces (sort_faces) and triangulated facets (merge_faces) vs brute-force facet/edge/neighbour structure"),
+    "C08": ("5/C08", "reflection-enumerated setters x generated targets: read-back, similarity of defining data, coherence with a fresh shape; bad targets refused atomically"),
+    "C10": ("5/C10", "generated radii/axes/centres (ties, near-ties, needle/disc) vs 40-digit mpmath closed forms (E, Carlson R_G) validated by quadrature"),
+    "C11": ("5/C11", "generated convex cores x rounding radii vs Steiner polynomials built from the exact core oracles and an edge/exterior-angle mean curvature"),
+    "C17": ("5/C17", "generated/grid parameters vs half-space intersection from symmetry-generated planes (cross-checked with scipy HalfspaceIntersection); exhaustive n=3..200 for uniform families"),
+    "C18": ("5/C18", "complete enumeration of the 290 tabulated entries vs hand-entered textbook counts, brute-force facets, regularity and insphere predicates"),
+    "C20": ("5/C20", "generated polyhedra exported in 7 formats and read back by independent strict parsers; STL tiling/orientation predicates; export leaves observables unchanged"),
 }
 NOT_APPLICABLE = {}
 
